@@ -23,7 +23,7 @@ def grammar():
 
 
 def prelude(s, rng, cls):
-    """Abstract prior state classes: idle / tuned / hopping / running."""
+    """Abstract prior state classes: idle / tuned / hopping / running / hopping-running."""
     n = len(s.sim.trx)
     if cls in ("tuned", "running"):
         for t in range(n):
@@ -32,7 +32,15 @@ def prelude(s, rng, cls):
     if cls == "hopping":
         for t in range(n):
             s.cmd(t, "CMD SETFH %d %d %s" % (rng.randrange(64), rng.randrange(4), " ".join(str(rng.choice(FC.FREQS)) for _ in range(4))))
-    if cls == "running":
+    if cls == "hopping-running":
+        # some transceivers hop, some are tuned; all are switched on
+        for t in range(n):
+            if rng.random() < 0.6:
+                s.cmd(t, "CMD SETFH %d %d %s" % (rng.randrange(64), rng.randrange(4), " ".join(str(rng.choice(FC.FREQS)) for _ in range(4))))
+            else:
+                s.cmd(t, "CMD RXTUNE %d" % rng.choice(FC.FREQS))
+                s.cmd(t, "CMD TXTUNE %d" % rng.choice(FC.FREQS))
+    if cls in ("running", "hopping-running"):
         for t in range(n):
             s.cmd(t, "CMD POWERON")
 
@@ -42,7 +50,7 @@ def grammar_sessions(ctx, reps):
     out = []
     g = grammar()
     k = 0
-    for cls in ("idle", "tuned", "hopping", "running"):
+    for cls in ("idle", "tuned", "hopping", "running", "hopping-running"):
         for rep in range(reps):
             rng.shuffle(g)
             for i in range(0, len(g), 10):
